@@ -337,6 +337,19 @@ def _add(module: Module, val: ModuleAttr) -> ModuleAttr:
         # Nonetheless gotta raise an error if we get here, somehow.
         _attr_type_error(val)
 
+    # If the name is being re-used, drop its former holder from whichever container has it.
+    # It may have been an attribute of another kind.
+    if val.name in module.namespace:
+        for ctr in (
+            module.ports,
+            module.signals,
+            module.instances,
+            module.instarrays,
+            module.instbundles,
+            module.bundles,
+        ):
+            ctr.pop(val.name, None)
+
     # Add it to the module namespace, and the type-specific container
     type_ctr[val.name] = val
     module.namespace[val.name] = val
